@@ -116,7 +116,10 @@ def parseCase (ts : List String) : Option Case :=
     | some (cops, [sc, alpn, sops, tr]) =>
       match schemeOf sch, hostOf uh, clientSetup cops, certOf sc, serverOps sops with
       | some scheme, some host, some client, some serverCert, some sops =>
-        let inner? : Option InnerInfo := if tr = "tcp" then some .tcp else if tr = "duplex" then some .other else none
+        -- `-lazy`: connect_with_connector_lazy (same decision logic; the harness also retries once)
+        let inner? : Option InnerInfo :=
+          if tr = "tcp" || tr = "tcp-lazy" then some .tcp
+          else if tr = "duplex" || tr = "duplex-lazy" then some .other else none
         match inner? with
         | some inner => some { scheme, uri := { scheme := some scheme, host := some host }, client, serverCert, alpn, sops, inner }
         | none => none
@@ -188,11 +191,11 @@ def outcomeToks (o : Outcome (List Cert)) : String :=
     | none => "-"
     | some none => "absent"
     | some (some e) => certsTok e
-  s!"cfg=ok res={res} h={o.handlers} peer={peer} ext={ext} plain={if o.plaintext then 1 else 0} dial=1"
+  s!"res={res} cfg=ok h={o.handlers} peer={peer} ext={ext} plain={if o.plaintext then 1 else 0} dial=1"
 
 def modelOut (c : Case) : String :=
   match endpointOf c with
-  | .error e => s!"cfg=err:{cfgErrTok e} res=fail:config h=0 peer=- ext=- plain=0 dial=0"
+  | .error e => s!"res=fail:config cfg=err:{cfgErrTok e} h=0 peer=- ext=- plain=0 dial=0"
   | .ok ep =>
     match serverOf c with
     | none => "server-config-unusable"
@@ -281,7 +284,24 @@ def specVerdict (c : Case) (o : Obs) : String :=
     ("peer-certs-only-from-tls-info", !(o.handlers > 0) || o.peer == "none" || o.peer == o.ext)
   ]
 
+/-- `srvcfg <ops>`: only `Server::builder().tls_config(..)`. -/
+def handleSrvCfg (opsTok : String) (obs : List String) : String × String :=
+  match serverOps opsTok with
+  | none => bad
+  | some ops =>
+    let model := match (ServerTlsConfig.build ops).tlsAcceptor with
+      | .ok _ => "ok"
+      | .err e => "err:" ++ cfgErrTok e
+      | .panic => "panic"
+    -- the property does not speak about configuration errors; the one thing the oracle insists
+    -- on is that a configuration WITH an identity never panics
+    let hasId := ops.any (fun o => match o with | .identity _ => true | _ => false)
+    (model, verdict [("no-panic-with-identity", !(hasId && obs == ["panic"]))])
+
 def handle (case obs : List String) : String × String :=
+  match case with
+  | ["srvcfg", ops] => handleSrvCfg ops obs
+  | _ =>
   match parseCase case with
   | none => bad
   | some c =>
